@@ -44,7 +44,7 @@ PROPS = {
         "assumptions": ["capacity limits (16 members, 14 groups) are preconditions"],
     },
     "C04": {
-        "claim": 'Decides GC7 completely: the tag write in add() is guarded by the pre-state tag being 0, the reset of edges, data and read status co-occurs with it on exactly the same paths, and no other path of add() writes anything; add() contains no always-compiled assertion about the vacant slot other than the documented preconditions (and "holds no unread datum", which counter exactness gives), so re-creating a collected id completes. CL1 (a clone has every slot of the vertex table of the original) is run as a premise: the statement holds on clones as well. GC2 (a collection marks every member of the group absent) is run as a premise of 'an id whose vertex was collected is absent'.',
+        "claim": 'Decides GC7 completely: the tag write in add() is guarded by the pre-state tag being 0, the reset of edges, data and read status co-occurs with it on exactly the same paths, and no other path of add() writes anything; add() contains no always-compiled assertion about the vacant slot other than the documented preconditions (and "holds no unread datum", which counter exactness gives), so re-creating a collected id completes. CL1 (a clone has every slot of the vertex table of the original) is run as a premise: the statement holds on clones as well. GC2 (a collection marks every member of the group absent) is run as a premise of the clause about ids whose vertex was collected: such an id is absent.',
         "note": 'Trusted: rustc front end + engine; micromap::Map::new / Hex::empty produce blank values (read).',
         "technique": 'MIR guard + co-occurrence rule on add()',
         "rules": [("GC7", functools.partial(G.gc7, part="abc")), ("CL1/CL4", NX.cl1), ("GC2", G.gc2)],
